@@ -6,6 +6,7 @@ import (
 	"encoding/binary"
 	"errors"
 	"fmt"
+	"maps"
 	"sort"
 
 	"github.com/smartcontractkit/libocr/offchainreporting2/types"
@@ -88,7 +89,9 @@ func (p *Plugin) outcome(outctx ocr3types.OutcomeContext, query types.Query, aos
 	/////////////////////////////////
 	// outcome.ChannelDefinitions
 	/////////////////////////////////
-	outcome.ChannelDefinitions = previousOutcome.ChannelDefinitions
+	// NOTE: clone, do not alias: previousOutcome.ChannelDefinitions is still
+	// needed unmodified below to decide whether previousOutcome was reportable
+	outcome.ChannelDefinitions = maps.Clone(previousOutcome.ChannelDefinitions)
 	if outcome.ChannelDefinitions == nil {
 		outcome.ChannelDefinitions = llotypes.ChannelDefinitions{}
 	}
